@@ -375,8 +375,10 @@ def expected_faults(prop):
     base = ["probe_first_touch", "init_first_touch", "import_first_touch", "calc_first_touch",
             "read_first_touch_noncanonical_route", "retry", "retry_reload", "op_raised"]
     if prop == "C10":
-        base += ["private_init_while_public_pending", "fail_op_missing_prerequisite", "retry_after_failed_init",
-                 "duplicate_table_name", "mutation"]
+        base += ["private_init_while_public_pending", "private_assignment_while_public_pending",
+                 "fail_op_missing_prerequisite", "retry_after_failed_init", "duplicate_table_name", "mutation",
+                 "mutation_walk", "second_table_after_first_modified", "deliver_cross_node", "deliver_duplicate",
+                 "restart"]
     if prop == "C08":
         base = ["retry", "op_raised", "bad_key", "restart", "deliver_cross_node", "deliver_duplicate",
                 "unpickle_without_table", "unpickle_missing_isotope", "duplicate_table_name",
